@@ -537,3 +537,96 @@ def check_inputs(model, inputs, vectorize, solver="euler", T=1.0, dt=0.05, only_
                               var=path, row=bad, observed=float(got[bad]) if bad >= 0 else list(got.shape),
                               expected=float(want[bad]) if bad >= 0 else list(want.shape)))
     return fails
+
+
+def population_to_explicit(ps):
+    """Population spec -> explicit MDL (n separately declared nodes, one scalar edge per non-zero matrix entry)."""
+    ops = ps["ops"]
+    nodes, edges = {}, []
+    for pname, p in ps["pops"].items():
+        for i in range(p["n"]):
+            over = {}
+            for key, val in p.get("params", {}).items():
+                over[key] = float(val[i]) if isinstance(val, (list, tuple)) and len(val) == p["n"] else float(val)
+            nodes[f"{pname}_{i}"] = dict(ops=list(p["ops"]), over=over) if over else dict(ops=list(p["ops"]))
+    for c in ps["conns"]:
+        sp, so, sv = c["src"].split("/")
+        tp, to, tv = c["tgt"].split("/")
+        ns, nt = ps["pops"][sp]["n"], ps["pops"][tp]["n"]
+        W = c["W"]
+        for i in range(nt):
+            for j in range(ns):
+                w = float(W[i][j]) if isinstance(W, (list, tuple)) else float(W)
+                if w != 0.0:
+                    edges.append(dict(src=f"{sp}_{j}/{so}/{sv}", tgt=f"{tp}_{i}/{to}/{tv}", w=w, d=c.get("d"), s=c.get("s")))
+    return dict(ops=ops, nodes=nodes, edges=edges)
+
+
+def build_population_circuit(ps):
+    from pyrates import OperatorTemplate, NodeTemplate, CircuitTemplate
+    from pyrates.frontend.template.population import PopulationTemplate, Connectivity
+    ops = {}
+    for name, op in ps["ops"].items():
+        eqs = [mdl.eq_str(l, k, t) for l, k, t in op["eqs"]]
+        variables = {v: mdl.var_decl(vt, d) for v, (vt, d) in op["vars"].items()}
+        ops[name] = OperatorTemplate(name=name, equations=eqs, variables=variables, path=None)
+    pops = {}
+    for pname, p in ps["pops"].items():
+        nt = NodeTemplate(name=f"nt_{pname}", operators=[ops[o] for o in p["ops"]], path=None)
+        params = {k: (np.asarray(v, dtype=float) if isinstance(v, (list, tuple)) else v) for k, v in p.get("params", {}).items()}
+        pops[pname] = PopulationTemplate(name=pname, node=nt, n=p["n"], params=params or None)
+    conns = []
+    for c in ps["conns"]:
+        kw = {}
+        if c.get("d") is not None:
+            kw["delays"] = c["d"]
+        if c.get("s") is not None:
+            kw["spread"] = c["s"]
+        W = np.asarray(c["W"], dtype=float) if isinstance(c["W"], (list, tuple)) else float(c["W"])
+        conns.append(Connectivity(source=c["src"], target=c["tgt"], weights=W, **kw))
+    return CircuitTemplate(name="popnet", populations=pops, connections=conns)
+
+
+def check_population(ps, T=0.5, dt=0.05, solver="euler"):
+    """C16-B: the Population/Connectivity circuit equals the explicit node-and-edge network, unit by unit."""
+    explicit = population_to_explicit(ps)
+    _, ref = mdl.spec_fixed_step(explicit, T, dt, dt, solver)
+    fails = []
+    try:
+        tpl = build_population_circuit(ps)
+        outs = {}
+        for pname, p in ps["pops"].items():
+            for o in p["ops"]:
+                for l, k, _ in ps["ops"][o]["eqs"]:
+                    if k == "de":
+                        outs[f"{pname}.{o}.{l}"] = f"{pname}/{o}/{l}"
+        df = tpl.run(simulation_time=T, step_size=dt, solver=solver, outputs=outs, verbose=False, clear=False, in_place=True,
+                     float_precision="float64")
+    except Exception as exn:
+        return [dict(clause="the population circuit compiles and runs", observed=f"{type(exn).__name__}: {exn}")]
+    def norm(c):
+        if isinstance(c, tuple):
+            parts = [x for x in c if not (x is None or (isinstance(x, float) and x != x))]
+            if len(parts) > 2 and all(isinstance(x, str) and len(x) == 1 for x in parts):
+                return "".join(parts)
+            return tuple(parts)
+        return c
+    labels = [norm(c) for c in df.columns]
+    for key, path in outs.items():
+        pname, o, v = path.split("/")
+        n = ps["pops"][pname]["n"]
+        for i in range(n):
+            want_label = (key, i) if n > 1 else key
+            if want_label not in labels and n == 1 and (key, 0) in labels:
+                want_label = (key, 0)
+            if want_label not in labels:
+                fails.append(dict(clause="population output: one column per unit", var=f"{path}[{i}]", observed=[str(c) for c in labels][:8]))
+                return fails
+            col = df.iloc[:, labels.index(want_label)]
+            got = np.asarray(col, dtype=float).reshape(len(df.index), -1)[:, 0]
+            want = ref[f"{pname}_{i}/{o}/{v}"]
+            if got.shape != want.shape or not np.allclose(got, want, rtol=1e-7, atol=1e-10):
+                bad = int(np.argmax(np.abs(got - want))) if got.shape == want.shape else -1
+                fails.append(dict(clause="population unit equals the explicit network's node", var=f"{pname}_{i}/{o}/{v}", row=bad,
+                                  observed=float(got[bad]) if bad >= 0 else list(got.shape), expected=float(want[bad]) if bad >= 0 else list(want.shape)))
+    return fails
